@@ -1,5 +1,4 @@
-import IronCalc.Book.Names
-import IronCalc.Book.SheetsProofs
+import IronCalc.Book.NamesProofs
 /-
   C32 — Defined names are stable under edits.  Property theorems only.
   Model: Book/Names.lean (new/delete/update_defined_name, the definition table keyed by
@@ -166,29 +165,117 @@ theorem update_name_reresolves_visible (F : Fold) (dns : List (String × Option 
     (huniq : ∀ d ∈ dns, F.low new = F.low d.1 → d.2 = newScope)
     (hex : ∃ d ∈ dns, F.low new = F.low d.1 ∧ d.2 = newScope)
     (hvis : newScope = some c ∨ newScope = none) :
-    resolveIdent F dns (some c) new = some newScope := by
-  obtain ⟨d, hd, hn, hs⟩ := hex
-  unfold resolveIdent
-  simp only
-  rcases hvis with hv | hv
-  · subst hv
-    have : dns.any (fun d => F.low new == F.low d.1 && d.2 == some c) = true := by
-      rw [List.any_eq_true]; exact ⟨d, hd, by simp [hn, hs]⟩
-    simp [this]
-  · subst hv
-    have h1 : dns.any (fun d => F.low new == F.low d.1 && d.2 == some c) = false := by
-      cases h : dns.any (fun d => F.low new == F.low d.1 && d.2 == some c) with
-      | false => rfl
-      | true =>
-        rw [List.any_eq_true] at h
-        obtain ⟨e, he, hm⟩ := h
-        simp only [Bool.and_eq_true, beq_iff_eq] at hm
-        have := huniq e he hm.1
-        rw [this] at hm
-        exact absurd hm.2 (by simp)
-    have h2 : dns.any (fun d => F.low new == F.low d.1 && d.2 == none) = true := by
-      rw [List.any_eq_true]; exact ⟨d, hd, by simp [hn, hs]⟩
-    rw [h1, h2]; simp
+    resolveIdent F dns (some c) new = some newScope :=
+  update_name_reresolves_visible_aux F dns c new newScope huniq hex hvis
+
+/-- **C32 (what the code does on a sheet).** `update_defined_name` with a new spelling: every stored
+    formula of a sheet is parsed, rewritten by `rename_defined_name_in_node` (users selected by the OLD
+    scope), printed, and parsed again against the updated name list.  On every sheet from which the new
+    scope is visible (its own sheet, or any sheet when it is global), the parse trees after the update
+    are exactly `retargetNameInNode` of the parse trees before — so `update_name_scope_preserves_eval`
+    speaks about the code path of the model, not about an idealised rewrite.  Hypotheses: sheet names
+    and ids unique; one stored entry per (spelling, scope) (what `new_defined_name` /
+    `update_defined_name` enforce); the new spelling is used by no name and by no identifier of the
+    sheet's formulas; the two case foldings agree.  The print/parse step of the stored text is the
+    identity on trees in this model (`strip`/`resolve`); on the code it is C09's round trip. -/
+theorem update_reparses_to_retarget {F : Fold} {b b' : Book} {name : String} {scope : Option Nat}
+    {new : String} {newScope : Option Nat} {formula : SNode}
+    (hU : b.UniqueNames F) (hI : b.UniqueIds)
+    (hfold : ∀ a c : String, F.up a = F.up c → F.low a = F.low c)
+    (h : updateDefinedName F b true name scope new newScope formula = .ok b')
+    (huniq : ∀ (j k : Nat) (t u : String × Option Nat), b.namesWithScope[j]? = some t →
+      b.namesWithScope[k]? = some u → F.low t.1 = F.low u.1 → t.2 = u.2 → j = k)
+    (hfresh : ∀ t ∈ b.namesWithScope, F.low t.1 ≠ F.low new)
+    (p : Nat) (ws : Sheet) (hws : b.sheets[p]? = some ws)
+    (hvis : newScope = some p ∨ newScope = none)
+    (hn : ∀ f ∈ ws.formulas, ∀ vn ∈ Tree.idents f, F.low vn.2 ≠ F.low new) :
+    ∃ ws', b'.sheets[p]? = some ws' ∧ ws'.name = ws.name ∧ ws'.id = ws.id ∧
+      b'.parsedSheet F ws' = (b.parsedSheet F ws).map (retargetNameInNode F.low name scope new newScope) := by
+  obtain ⟨sid, newSid, i, d, hs1, hs2, hfi, hdi, hb'⟩ := updateDefinedName_inv h
+  obtain ⟨d0, hd0, hup, hsc⟩ := findNameIdx_spec hfi
+  rw [hdi] at hd0; cases hd0
+  -- the stored entry, seen through `get_defined_names_with_scope`
+  have hdns_i : b.namesWithScope[i]? = some (d.name, scope) := by
+    unfold Book.namesWithScope
+    rw [List.getElem?_map, hdi]
+    simp only [Option.map_some, Option.some.injEq, Prod.mk.injEq, true_and]
+    rw [hsc]; exact scopeId_bind_idIndex hI hs1
+  have hlow : F.low d.name = F.low name := hfold _ _ hup
+  have hne : (new != d.name) = true := by
+    have := hfresh (d.name, scope) (List.mem_of_getElem? hdns_i)
+    simp only [bne_iff_ne, ne_eq]
+    intro e; exact this (by rw [e])
+  rw [hne] at hb'
+  simp only [if_true] at hb'
+  -- vectors after the update
+  have hsheets : b'.sheets = b.sheets.map fun ws =>
+      ({ ws with formulas := ws.formulas.map (rewriteName F b name scope new ws.name) } : Sheet) := by rw [hb']
+  have hnames : b'.sheetNames = b.sheetNames := by
+    unfold Book.sheetNames; rw [hsheets, List.map_map]; rfl
+  have hids : b'.sheets.map (·.id) = b.sheets.map (·.id) := by
+    rw [hsheets, List.map_map]; rfl
+  have hdns' : b'.namesWithScope = b.namesWithScope.set i (new, newScope) := by
+    unfold Book.namesWithScope
+    have hn' : b'.names = b.names.set i { name := new, scope := newSid, formula := formula } := by rw [hb']
+    rw [hn', List.map_set]
+    have hg : (b.names.map fun d => (d.name, d.scope.bind (idIndex b'.sheets)))
+        = b.names.map fun d => (d.name, d.scope.bind (idIndex b.sheets)) := by
+      apply List.map_congr_left
+      intro e _
+      congr 1
+      cases e.scope with
+      | none => rfl
+      | some s => exact idIndex_congr hids s
+    rw [hg]
+    congr 1
+    simp only [Prod.mk.injEq, true_and]
+    have := scopeId_bind_idIndex hI hs2
+    cases newSid with
+    | none => simpa using this
+    | some s => simpa [idIndex_congr hids s] using this
+  have hUD : UpdatedDefs F b.namesWithScope b'.namesWithScope name scope new newScope := by
+    rw [hdns']
+    exact updatedDefs_set F _ name scope new newScope i (d.name, scope) hdns_i ⟨hlow, rfl⟩
+      (fun j t' hj h1 h2 => huniq j i t' (d.name, scope) hj hdns_i (by rw [h1, hlow]) h2)
+  -- the sheet
+  have hinj : Inj b.sheetNames := inj_of_nodupUp F.up hU
+  have hctx : b.sheetNames[p]? = some ws.name := by simp [Book.sheetNames, hws]
+  have hc : sheetIndex b.sheetNames ws.name = some p := sheetIndex_of_get hinj hctx
+  refine ⟨{ ws with formulas := ws.formulas.map (rewriteName F b name scope new ws.name) }, ?_, rfl, rfl, ?_⟩
+  · rw [hsheets, List.getElem?_map, hws]; rfl
+  · unfold Book.parsedSheet
+    rw [hnames]
+    simp only [List.map_map]
+    apply List.map_congr_left
+    intro f hf
+    simp only [Function.comp, rewriteName]
+    exact reparse_tree F b.sheetNames b.namesWithScope b'.namesWithScope name scope new newScope
+      ws.name p hc hUD hfresh hvis f (hn f hf)
+
+/-- non-vacuity of `update_reparses_to_retarget`: Sheet2-local `ratio` becomes the global `factor` in
+    one update (with a global `ratio` decoy); on Sheet2 the user is re-spelled and re-bound, the model's
+    update and `retargetNameInNode` agree, and the decoy user on Sheet1 is untouched -/
+def updBook : Book :=
+  { sheets := [ { name := "Sheet1", id := 1, formulas := [.op "+" [.ident () "ratio", .leaf "n1"]] },
+                { name := "Sheet2", id := 2, formulas := [.op "*" [.ident () "ratio", .leaf "n2"]] } ],
+    names := [ { name := "ratio", scope := some 2, formula := .ref .cell (some "Sheet2") "$A$1" },
+               { name := "ratio", scope := none, formula := .ref .cell (some "Sheet1") "$C$1" } ] }
+
+
+example : updBook.UniqueNames ⟨id, id⟩ ∧ updBook.UniqueIds := by decide
+
+example : (updateDefinedName ⟨id, id⟩ updBook true "ratio" (some 1) "factor" none (.ref .cell (some "Sheet2") "$A$1")).toOption.map
+      (fun b' => b'.namesWithScope) = some [("factor", none), ("ratio", none)] := by decide
+
+/-- after the model's update (left) and by `retargetNameInNode` on the old parse (right): Sheet1 keeps
+    the decoy `ratio` (global), Sheet2 reads `factor` (global) -/
+example : (updateDefinedName ⟨id, id⟩ updBook true "ratio" (some 1) "factor" none (.ref .cell (some "Sheet2") "$A$1")).toOption.map
+      (fun b' => (b'.parsed ⟨id, id⟩).flatMap (fun l => l.flatMap Tree.idents))
+    = some ([(some none, "ratio"), (some none, "factor")] : List (NameRes × String)) := by decide
+
+example : (updBook.parsed ⟨id, id⟩).flatMap
+      (fun l => l.flatMap fun t => Tree.idents (retargetNameInNode id "ratio" (some 1) "factor" none t))
+    = ([(some none, "ratio"), (some none, "factor")] : List (NameRes × String)) := by decide
 
 /-- the rewrite touches identifiers only: every reference of the formula is kept as it is -/
 theorem rename_name_keeps_refs (F : Fold) (old : String) (scope : Option Nat) (new : String) (t : Node) :
@@ -248,11 +335,11 @@ theorem other_sheet_move_stable {F : Fold} {b b' : Book} {i j : Nat}
   rw [refId_eq, refId_eq]
   exact idByName_perm hp (uniqueMem_of_nodupUp F.up hU) _
 
-/-- **delete of another sheet**: stored names are untouched, every reference to a remaining sheet
-    keeps denoting that sheet -/
+/-- **delete of another sheet**: exactly the names local to the deleted sheet go, every other stored
+    name is untouched (same entry, same order), every reference to a remaining sheet keeps denoting it -/
 theorem other_sheet_delete_stable {F : Fold} {b b' : Book} {i : Nat}
     (hU : b.UniqueNames F) (h : deleteSheet b i = .ok b') :
-    b'.names = b.names ∧
+    b'.names = b.names.filter (fun d => d.scope != (b.sheets[i]?).map (·.id)) ∧
       ∀ x ∈ b'.sheets, x ∈ b.sheets ∧ idByName b'.sheets x.name = idByName b.sheets x.name := by
   unfold deleteSheet at h
   split at h
@@ -265,51 +352,85 @@ theorem other_sheet_delete_stable {F : Fold} {b b' : Book} {i : Nat}
       have hsub : ∀ y, y ∈ b.sheets.eraseIdx i → y ∈ b.sheets := fun y hy => List.mem_of_mem_eraseIdx hy
       exact ⟨hsub x hx, idByName_sublist_mem hsub (uniqueMem_of_nodupUp F.up hU) x.name hx rfl⟩
 
-/-! ### F27a: a name scoped to a deleted sheet is left behind and reported as global -/
+/-! ### F27a (repaired): the names local to a deleted sheet are deleted with it -/
 
-/-- the full statement: after any successful `delete_sheet`, no stored name is reported with a scope
-    it did not have (a sheet-local name is never reported as global) -/
-def C32_delete_full : Prop :=
-  ∀ (b b' : Book) (i : Nat), deleteSheet b i = .ok b' →
-    ∀ d ∈ b'.names, d.scope.isSome → (d.scope.bind (idIndex b'.sheets)).isSome
+/-- every sheet-local name belongs to an existing sheet (C27's `namesScoped`) -/
+def Book.NamesScoped (b : Book) : Prop :=
+  ∀ d ∈ b.names, ∀ sid, d.scope = some sid → ∃ x ∈ b.sheets, x.id = sid
+
+theorem idIndex_isSome_of_mem {l : List Sheet} {x : Sheet} (hx : x ∈ l) : (idIndex l x.id).isSome := by
+  induction l with
+  | nil => cases hx
+  | cons a as ih =>
+    unfold idIndex
+    by_cases ha : a.id = x.id
+    · simp [ha]
+    · simp only [ha, if_false]
+      cases hx with
+      | head => exact absurd rfl ha
+      | tail _ hm =>
+        have := ih hm
+        cases hi : idIndex as x.id with
+        | none => simp [hi] at this
+        | some k => simp
+
+/-- **C32 (delete).** After any successful `delete_sheet` on a workbook whose local names belong to
+    existing sheets: no name of the deleted sheet is left, and every remaining local name still
+    belongs to an existing sheet — so none is reported (or parsed) as a global name.  (On the
+    pinned tree this failed: `witnessF27a`.) -/
+theorem delete_sheet_names_scoped {b b' : Book} {i : Nat} (hS : b.NamesScoped)
+    (h : deleteSheet b i = .ok b') :
+    b'.NamesScoped ∧ (∀ d ∈ b'.names, d.scope.isSome → (d.scope.bind (idIndex b'.sheets)).isSome) ∧
+      ∀ sh, b.sheets[i]? = some sh → ∀ d ∈ b'.names, d.scope ≠ some sh.id := by
+  unfold deleteSheet at h
+  split at h
+  · cases h
+  · split at h
+    · cases h
+    · rename_i h1 h2
+      cases h
+      have hi : i < b.sheets.length := by omega
+      obtain ⟨sh, hsh⟩ : ∃ sh, b.sheets[i]? = some sh := ⟨b.sheets[i], by simp [hi]⟩
+      have hscoped : Book.NamesScoped
+          { sheets := b.sheets.eraseIdx i,
+            names := b.names.filter fun d => d.scope != (b.sheets[i]?).map (·.id) } := by
+        intro d hd sid hs
+        simp only [List.mem_filter, hsh, Option.map_some] at hd
+        obtain ⟨x, hx, hid⟩ := hS d hd.1 sid hs
+        have hne : sid ≠ sh.id := by
+          intro e; have := hd.2; rw [hs, e] at this; simp at this
+        obtain ⟨k, hk⟩ := List.mem_iff_getElem?.mp hx
+        have hki : k ≠ i := by
+          intro e; subst e; rw [hsh] at hk; cases hk; exact hne hid.symm
+        refine ⟨x, ?_, hid⟩
+        apply List.mem_iff_getElem?.mpr
+        by_cases hlt : k < i
+        · exact ⟨k, by rw [List.getElem?_eraseIdx]; simp [hlt, hk]⟩
+        · refine ⟨k - 1, ?_⟩
+          rw [List.getElem?_eraseIdx]
+          have c1 : ¬ (k - 1 < i) := by omega
+          have c2 : k - 1 + 1 = k := by omega
+          simp [c1, c2, hk]
+      refine ⟨hscoped, ?_, ?_⟩
+      · intro d hd hsome
+        cases hs : d.scope with
+        | none => rw [hs] at hsome; cases hsome
+        | some sid =>
+          obtain ⟨x, hx, hid⟩ := hscoped d hd sid hs
+          simp only [Option.bind_some]
+          rw [← hid]; exact idIndex_isSome_of_mem hx
+      · intro sh' hsh' d hd
+        rw [hsh] at hsh'; cases hsh'
+        simp only [List.mem_filter, hsh, Option.map_some] at hd
+        intro e; have := hd.2; rw [e] at this; simp at this
 
 def witnessF27a : Book :=
   { sheets := [ { name := "Sheet1", id := 1, formulas := [] }, { name := "Sheet2", id := 2, formulas := [] } ],
-    names := [ { name := "loc", scope := some 2, formula := .ref .cell (some "Sheet2") "$A$1" } ] }
+    names := [ { name := "loc", scope := some 2, formula := .ref .cell (some "Sheet2") "$A$1" },
+               { name := "glob", scope := none, formula := .ref .cell (some "Sheet1") "$A$1" } ] }
 
-theorem C32_delete_full_false : ¬ C32_delete_full := by
-  intro h
-  have := h witnessF27a { witnessF27a with sheets := [ { name := "Sheet1", id := 1, formulas := [] } ] } 1 rfl
-    { name := "loc", scope := some 2, formula := .ref .cell (some "Sheet2") "$A$1" } (by simp [witnessF27a]) rfl
-  revert this
-  decide
-
-/-- what is true on the pinned tree (`C32_delete_partial`): names whose sheet survives keep their
-    scope index up to the shift of the vector, i.e. their sheet id is still found -/
-theorem C32_delete_partial {b b' : Book} {i : Nat} (_h : deleteSheet b i = .ok b')
-    (d : DefName) (_hd : d ∈ b'.names) (sid : Nat) (hs : d.scope = some sid)
-    (hsurv : ∃ x ∈ b'.sheets, x.id = sid) : (d.scope.bind (idIndex b'.sheets)).isSome := by
-  obtain ⟨x, hx, hid⟩ := hsurv
-  rw [hs]
-  simp only [Option.bind_some]
-  have key : ∀ (l : List Sheet), x ∈ l → (idIndex l sid).isSome := by
-    intro l
-    induction l with
-    | nil => intro h; cases h
-    | cons a as ih =>
-      intro hm
-      unfold idIndex
-      by_cases ha : a.id = sid
-      · simp [ha]
-      · simp only [ha, if_false]
-        cases hm with
-        | head => exact absurd hid ha
-        | tail _ hm' =>
-          have := ih hm'
-          cases hi : idIndex as sid with
-          | none => simp [hi] at this
-          | some k => simp
-  exact key _ hx
+/-- the former counterexample: `loc` goes with Sheet2, the global name stays -/
+example : (deleteSheet witnessF27a 1).toOption.map (fun b' => b'.names.map (·.name)) = some ["glob"] := by decide
 
 /-! ### non-vacuity -/
 
